@@ -31,7 +31,10 @@ ASSUMPTIONS = [
 ]
 
 BOXES = [(3, 3, 3), (2, 3, 4)]
-KINDS = ["single", "batch(1,1)", "batch(2,1)", "batch(3,2,1)", "group2", "group3"]
+KINDS = ["single", "batch(1,1)", "batch(2,1)", "batch(3,2,1)", "group2", "group3", "groupinc"]
+# group features: uid mod 2, uid mod 3, and one whose groups grow (sizes 1, 2, 3: a one-molecule group comes first)
+GINC = [0, 1, 1, 2, 2, 2]
+GKEY = {"group2": ("g2", lambda u: u % 2), "group3": ("g3", lambda u: u % 3), "groupinc": ("gi", lambda u: GINC[u])}
 CHUNKS = ["numpy", "dask:whole", "dask:1", "dask:2", "dask:3", "dask:5", "dask:3,4,5"]
 
 
@@ -112,7 +115,7 @@ def _onehot_universe(counts, box, chunk):
             uids.append(gi)
             gi += 1
         tomos.append(_as_array(T, chunk))
-        moles.append(Molecules(np.array(pos, dtype=np.float64).reshape(-1, 3), features={"uid": uids, "g2": [u % 2 for u in uids], "g3": [u % 3 for u in uids]}))
+        moles.append(Molecules(np.array(pos, dtype=np.float64).reshape(-1, 3), features={"uid": uids, "g2": [u % 2 for u in uids], "g3": [u % 3 for u in uids], "gi": [GINC[u] for u in uids]}))
     return tomos, moles
 
 
@@ -147,13 +150,13 @@ def run_case(case):
 
     if fam == "onehot":
         if kind.startswith("group"):
-            key = "g2" if kind == "group2" else "g3"
+            key, gfn = GKEY[kind]
             G = ld.groupby(key)
             avgs = G.average()
             uids_all = list(range(N))
             for k, img in avgs.items():
                 kk = k[0] if isinstance(k, tuple) else k
-                members = [u for u in uids_all if u % (2 if key == "g2" else 3) == kk]
+                members = [u for u in uids_all if gfn(u) == kk]
                 w = weights(img)
                 exp = np.zeros(nvox)
                 exp[members] = 1.0 / len(members)
@@ -164,7 +167,7 @@ def run_case(case):
                 own = weights(ld.filter(pl.col(key) == kk).average())
                 if np.abs(w - own).max() > 1e-6:
                     viol.append((sig("group-vs-filter"), f"group {k}: average differs from loader.filter({key}=={kk}).average()"))
-            if sorted((k[0] if isinstance(k, tuple) else k) for k in avgs) != sorted({u % (2 if key == 'g2' else 3) for u in uids_all}):
+            if sorted((k[0] if isinstance(k, tuple) else k) for k in avgs) != sorted({gfn(u) for u in uids_all}):
                 viol.append((sig("group-keys"), f"keys {list(avgs)}"))
         else:
             w = weights(ld.average())
@@ -185,14 +188,18 @@ def run_case(case):
     # split family
     seed, n_set = case["seed"], case["n_set"]
     if kind.startswith("group"):
-        key = "g2" if kind == "group2" else "g3"
+        key, gfn = GKEY[kind]
         res = ld.groupby(key).average_split(n_set=n_set, seed=seed, squeeze=False)
         res2 = ld.groupby(key).average_split(n_set=n_set, seed=seed, squeeze=False)
         items = []
         for k, arr in res.items():
             kk = k[0] if isinstance(k, tuple) else k
-            members = [u for u in range(N) if u % (2 if key == "g2" else 3) == kk]
+            members = [u for u in range(N) if gfn(u) == kk]
             items.append((f"group {k}", np.asarray(arr), np.asarray(res2[k]), members))
+        got_keys = {(k[0] if isinstance(k, tuple) else k) for k in res}
+        for kk in sorted({gfn(u) for u in range(N)}):
+            if kk not in got_keys and sum(1 for u in range(N) if gfn(u) == kk) >= 2:
+                viol.append((sig("split-group-missing"), f"group {kk} ({sum(1 for u in range(N) if gfn(u) == kk)} molecules) has no entry in average_split(); keys {sorted(got_keys)}"))
     else:
         arr = np.asarray(ld.average_split(n_set=n_set, seed=seed, squeeze=False))
         arr2 = np.asarray(ld.average_split(n_set=n_set, seed=seed, squeeze=False))
